@@ -17,6 +17,7 @@ import os
 import re
 import shutil
 import subprocess
+import threading
 import time
 
 from . import c20ref as R
@@ -54,6 +55,44 @@ def _driver():
     return driver
 
 
+HANG_CPU_S = 60.0          # CPU-seconds (+ (n+m)/50) of a single-threaded run before the livelock rule fires
+HANG_CPU_REPEAT_S = 6.0    # ... for further occurrences of a key already convicted with the full budget in this run
+MEM_LIMIT = 8 << 30        # address-space limit per application process (they normally map ~1.5 GB)
+_hang_lock = threading.Lock()
+_hang_keys = set()
+
+
+def hang_budget(key, size):
+    with _hang_lock:
+        return (HANG_CPU_REPEAT_S + size / 500.0) if key in _hang_keys else (HANG_CPU_S + size / 50.0)
+
+
+def hang_convicted(key):
+    with _hang_lock:
+        _hang_keys.add(key)
+
+
+def _child_setup():
+    os.setsid()
+    try:
+        import resource
+        resource.setrlimit(resource.RLIMIT_AS, (MEM_LIMIT, MEM_LIMIT))
+        resource.setrlimit(resource.RLIMIT_CORE, (0, 0))
+    except (ValueError, OSError):
+        pass
+
+
+def proc_cpu_seconds(pid):
+    """utime + stime of the whole process (all threads), from /proc/<pid>/stat"""
+    try:
+        with open("/proc/%d/stat" % pid) as f:
+            st = f.read()
+        t = st[st.rindex(")") + 2:].split()
+        return (int(t[11]) + int(t[12])) / float(os.sysconf("SC_CLK_TCK"))
+    except (OSError, ValueError, IndexError):
+        return 0.0
+
+
 # ---------------------------------------------------------------------------------------------- case context
 class Ctx:
     def __init__(self, idx, seed, tier, exes, root, desc):
@@ -73,6 +112,8 @@ class Ctx:
         self.nontrivial = False
         self.graph = None
         self.files = {}
+        self.hung = False
+        self.verify_failed = False
 
     def p(self, name):
         return os.path.join(self.dir, name)
@@ -100,34 +141,93 @@ class Ctx:
             self.viol.append((k, self.witness(detail)))
 
     # ------------------------------------------------------------------ running an application
-    def run(self, exe, args, mpi=0, timeout=None, cwd=None):
-        """returns (rc, text). Timeout: one re-run with twice the limit, then Inconclusive."""
+    def _once(self, cmd, env, wall_limit, cpu_cap):
+        """one process; returns (kind, rc, text, cpu) with kind in done | cpu | timeout"""
+        self.count("app_runs")
+        outp = self.p("stdout-%d.txt" % self.obs["app_runs"])
+        kind, cpu = "done", 0.0
+        with open(outp, "wb") as of:
+            p = subprocess.Popen(cmd, stdout=of, stderr=subprocess.STDOUT, env=env, cwd=self.dir, preexec_fn=_child_setup)
+            t0 = time.time()
+            step = 0.05
+            while True:
+                try:
+                    p.wait(timeout=step)
+                    break
+                except subprocess.TimeoutExpired:
+                    step = min(1.0, step * 2)
+                    if cpu_cap is not None:
+                        cpu = proc_cpu_seconds(p.pid)
+                        if cpu >= cpu_cap:
+                            kind = "cpu"
+                    if kind == "done" and time.time() - t0 > wall_limit:
+                        kind = "timeout"
+                    if kind != "done":
+                        try:
+                            os.killpg(p.pid, 9)
+                        except ProcessLookupError:
+                            pass
+                        p.wait()
+                        break
+        with open(outp, "rb") as f:
+            f.seek(max(0, os.path.getsize(outp) - 200000))
+            text = f.read().decode(errors="replace")
+        try:
+            os.unlink(outp)
+        except OSError:
+            pass
+        return kind, p.returncode, text, cpu
+
+    def run(self, exe, args, mpi=0, timeout=None, threads=1):
+        """returns (rc, text); rc == "hang" when the livelock rule below fired (violation already recorded).
+        Wall-clock timeout: one re-run with twice the limit, then Inconclusive (never a verdict).
+        Livelock rule (shared-memory applications): a *single-threaded* run (-t 1) has consumed
+        60 + (nodes+edges)/50 seconds of CPU time (utime+stime from /proc/<pid>/stat, so time spent descheduled on the
+        loaded machine does not count) without terminating: > 10^11 instructions on inputs every algorithm here
+        handles in well under 10^9. A multi-threaded run that exceeds threads x that budget proves nothing (its threads
+        may be spinning while one of them is descheduled): it is stopped, the same command is probed with -t 1 under
+        the rule, and if the probe terminates the multi-threaded run is repeated with the wall-clock limit only."""
         env = _driver().san_env()
         pre = []
         if mpi:
             pre = ["mpirun", "--allow-run-as-root", "--oversubscribe", "-np", str(mpi)]
-            env["OMPI_MCA_btl_vader_single_copy_mechanism"] = "none"
             env["OMPI_MCA_rmaps_base_oversubscribe"] = "1"
             env["OMPI_MCA_mpi_yield_when_idle"] = "1"
-        cmd = pre + [exe] + [str(a) for a in args]
+        args = [str(a) for a in args]
+        cmd = pre + [exe] + args
         limit = timeout or (MPI_TIMEOUT if mpi else APP_TIMEOUT)
+        budget = None
+        if not mpi and self.graph is not None and "-t" in args:
+            budget = hang_budget(self.key("hang"), self.graph.n + self.graph.m())
+        text = ""
         for attempt in (0, 1):
-            self.count("app_runs")
-            p = subprocess.Popen(cmd, stdout=subprocess.PIPE, stderr=subprocess.STDOUT, env=env, cwd=cwd or self.dir,
-                                 preexec_fn=os.setsid)
-            try:
-                out, _ = p.communicate(timeout=limit * (attempt + 1))
-                return p.returncode, out.decode(errors="replace")
-            except subprocess.TimeoutExpired:
-                try:
-                    os.killpg(p.pid, 9)
-                except ProcessLookupError:
-                    pass
-                out, _ = p.communicate()
-                self.count("timeouts")
-                tail = out.decode(errors="replace")[-600:]
+            kind, rc, text, cpu = self._once(cmd, env, limit * (attempt + 1), budget * max(1, threads) if budget else None)
+            if kind == "done":
+                return rc, text
+            if kind == "cpu":
+                pcmd, pcpu = cmd, cpu
+                if threads > 1:
+                    pargs = list(args)
+                    pargs[pargs.index("-t") + 1] = "1"
+                    pcmd = [exe] + pargs
+                    self.count("single_thread_probes")
+                    kind2, rc2, text2, pcpu = self._once(pcmd, env, limit, budget)
+                    if kind2 != "cpu":
+                        budget = None       # unexplained slowness of the multi-threaded run: wall-clock limit only
+                        continue
+                    text = text2
+                hang_convicted(self.key("hang"))
+                lines = [l for l in text.splitlines() if not l.startswith(("STAT", "PARAM"))]
+                self.violation("hang", {"cmd": self.show_cmd(pcmd), "cpu_seconds_consumed_single_threaded": round(pcpu, 1),
+                                        "evidence": "a -t 1 run consumed this much CPU time (not wall-clock) on a graph of %d "
+                                                    "nodes / %d edges without terminating" % (self.graph.n, self.graph.m()),
+                                        "first_seen_with_threads": threads,
+                                        "output_tail": "\n".join(lines)[-700:]})
+                self.count("hangs")
+                return "hang", text
+            self.count("timeouts")
         raise Inconclusive("%s: no result within %ds (twice): %s ... output tail: %s" %
-                           (self.desc["comp"], limit * 2, " ".join(self.show_cmd(cmd)), tail))
+                           (self.desc["comp"], limit * 2, " ".join(self.show_cmd(cmd)), text[-600:]))
 
     def show_cmd(self, cmd):
         return [os.path.basename(a) if (a.startswith("/") and not a.startswith(self.dir)) else
@@ -143,6 +243,7 @@ class Ctx:
                       "node found with incorrect distance" in low or "not in same component" in low or
                       "not a matching" in low or "not a node cover" in low or "not a forest" in low)
         if own_verify:
+            self.verify_failed = True
             self.violation("verify-failed", {"cmd": self.show_cmd(cmd), "rc": rc, "output_tail": tail})
             return
         m = re.search(r"Assertion `(.*)' failed", text)
@@ -157,12 +258,21 @@ class Ctx:
                 what = "%s:%s" % (kind, w)
         self.violation("crash:" + what, {"cmd": self.show_cmd(cmd), "rc": rc, "output_tail": tail})
 
-    def app(self, name, args, mpi=0):
-        """run application `name`; returns the output text, or None after recording a violation for a failed run"""
+    def app(self, name, args, mpi=0, threads=1):
+        """run application `name`; returns the output text, or None after recording a violation for a crashed/hung
+        run. A run that only failed the application's own verification step still returns its text (the
+        fingerprints are printed before the verifier runs) with self.verify_failed set."""
         exe = self.exes[name]
-        rc, text = self.run(exe, args, mpi=mpi)
+        self.verify_failed = False
+        rc, text = self.run(exe, args, mpi=mpi, threads=threads)
+        if rc == "hang":
+            self.hung = True
+            return None
         if rc != 0:
+            n = len(self.viol)
             self.app_failed(rc, text, [exe] + list(args))
+            if self.verify_failed:
+                return text
             return None
         return text
 
@@ -313,7 +423,7 @@ def check_distance_run(ctx, text, ref, rep, cmd, inf):
                      grab_int(text, r"Sum of visited distances is (\d+)"), cmd)
     if "Verification successful." in text:
         ctx.count("own_verify_passed")
-    else:
+    elif not ctx.verify_failed:
         ctx.violation("missing-output", {"fingerprint": "Verification successful.", "cmd": cmd})
     return ok
 
@@ -333,12 +443,14 @@ def case_bfs(ctx):
     ctx.params.update({"startNode": src})
     path = ctx.p("g.gr")
     R.write_gr(path, g)
-    runs = list(threads) + [r.pick(threads) for _ in range(2 if ctx.tier == "quick" else 3)]
+    runs = list(threads) + [r.pick(threads) for _ in range(1 if ctx.tier == "quick" else 3)]
     reps = report_nodes(ctx, ref, src, len(runs))
     for t, rep in zip(runs, reps):
         args = [path, "-t", t, "-algo", algo, "-exec", ex, "-startNode", src, "-reportNode", rep]
-        text = ctx.app("bfs", args)
+        text = ctx.app("bfs", args, threads=t)
         if text is None:
+            if ctx.hung:
+                break
             continue
         check_distance_run(ctx, text, ref, rep, ctx.show_cmd(["bfs-cpu"] + args), SM_INF)
     ctx.count("thread_counts_compared", len(set(runs)))
@@ -361,7 +473,7 @@ def case_sssp(ctx):
     ctx.params.update({"startNode": src, "weights": wmode, "delta": delta})
     path = ctx.p("g.gr")
     R.write_gr(path, g)
-    runs = list(threads) + [r.pick(threads) for _ in range(2 if ctx.tier == "quick" else 3)]
+    runs = list(threads) + [r.pick(threads) for _ in range(1 if ctx.tier == "quick" else 3)]
     reps = report_nodes(ctx, ref, src, len(runs))
     for t, rep in zip(runs, reps):
         args = [path, "-t", t, "-startNode", src, "-reportNode", rep]
@@ -369,8 +481,10 @@ def case_sssp(ctx):
             args += ["-algo", algo]
         if delta is not None:
             args += ["-delta", delta]
-        text = ctx.app("sssp", args)
+        text = ctx.app("sssp", args, threads=t)
         if text is None:
+            if ctx.hung:
+                break
             continue
         check_distance_run(ctx, text, ref, rep, ctx.show_cmd(["sssp-cpu"] + args), SM_INF)
     ctx.count("thread_counts_compared", len(set(runs)))
@@ -395,15 +509,18 @@ def case_cc(ctx):
     R.write_gr(path, g)
     for t in threads:
         args = [path, "-symmetricGraph", "-t", t, "-algo", algo]
-        text = ctx.app("cc", args)
+        text = ctx.app("cc", args, threads=t)
         if text is None:
+            if ctx.hung:
+                break
             continue
         cmd = ctx.show_cmd(["connected-components-cpu"] + args)
         ctx.expect("wrong-component-count", "Total components", st["components"], grab_int(text, r"Total components: (\d+)"), cmd)
         ctx.expect("wrong-nontrivial-count", "Number of non-trivial components", st["nontrivial"],
                    grab_int(text, r"Number of non-trivial components: (\d+)"), cmd)
         ctx.expect("wrong-largest-component", "largest size", st["largest"], grab_int(text, r"largest size: (\d+)"), cmd)
-        ctx.count("own_verify_passed")   # a zero exit means verify() found every edge inside one component
+        if not ctx.verify_failed:
+            ctx.count("own_verify_passed")   # a zero exit means verify() found every edge inside one component
     ctx.count("thread_counts_compared", len(threads))
 
 
@@ -415,17 +532,21 @@ def case_mst(ctx):
     g = R.gen_graph(r, ctx.desc["kind"], pick_n(ctx), directed=not sym_input, weighted=True, wmode=wmode, cap_total=1 << 45)
     w, trees, edges = R.kruskal(g)
     threads = pick_threads(ctx)
-    finish_sig(ctx, g, threads, "|w=" + wmode)
+    finish_sig(ctx, g, threads, "|w=%s|%s" % (wmode, ctx.desc["args"]))
     ctx.params.update({"weights": wmode})
     path = ctx.p("g.gr")
     R.write_gr(path, g, "<i")
     for t in threads:
         args = [path, "-t", t] + (["-symmetricGraph"] if sym_input else [])
-        text = ctx.app("mst", args)
+        text = ctx.app("mst", args, threads=t)
         if text is None:
+            if ctx.hung:
+                break
             continue
         cmd = ctx.show_cmd(["minimum-spanningtree-cpu"] + args)
         ctx.expect("wrong-weight", "MST weight", w, grab_int(text, r"MST weight: (\d+)"), cmd)
+        if ctx.verify_failed:
+            continue       # "Num trees"/"Tree edges" are printed by the verifier only when it succeeds
         ctx.expect("wrong-tree-count", "Num trees", trees, grab_int(text, r"Num trees: (\d+)"), cmd)
         ctx.expect("wrong-edge-count", "Tree edges", edges, grab_int(text, r"Tree edges: (\d+)"), cmd)
         ctx.count("own_verify_passed")
@@ -451,8 +572,10 @@ def case_triangles(ctx):
     R.write_gr(path, g)
     for t in threads:
         args = [path, "-symmetricGraph", "-t", t, "-algo", algo] + (["-relabel"] if relabel else [])
-        text = ctx.app("triangles", args)
+        text = ctx.app("triangles", args, threads=t)
         if text is None:
+            if ctx.hung:
+                break
             continue
         ctx.expect("wrong-count", "Num Triangles", exp, grab_int(text, r"Num ?Triangles: (\d+)"),
                    ctx.show_cmd(["triangle-counting-cpu"] + args))
@@ -479,8 +602,10 @@ def case_kcore(ctx):
         exp = sum(R.kcore(g, k))
         for t in ([r.pick(threads)] if k != ks[0] else threads):
             args = [path, "-symmetricGraph", "-t", t, "-algo", algo, "-kcore=%d" % k]
-            text = ctx.app("kcore", args)
+            text = ctx.app("kcore", args, threads=t)
             if text is None:
+                if ctx.hung:
+                    break
                 continue
             ctx.expect("wrong-core-size", "Number of nodes in the %d-core" % k, exp,
                        grab_int(text, r"Number of nodes in the %d-core is (\d+)" % k),
@@ -537,7 +662,8 @@ def check_pagerank_top(ctx, top, ref, rel, abs_, cmd):
             ctx.violation("rank-outside-tolerance", {"node": vid, "printed_rank_value": val, "power_iteration": ref[vid],
                                                      "allowed_deviation": bound(ref[vid]), "cmd": cmd})
             return
-    ctx.obs["pr_worst_err_over_bound_x1000"] = max(ctx.obs.get("pr_worst_err_over_bound_x1000", 0), int(worst * 1000))
+    if worst > 0.5:
+        ctx.count("pr_runs_using_more_than_half_of_the_allowed_deviation")
     # rank order: only between nodes whose reference ranks are clearly separated
     for (r1, v1, i1), (r2, v2, i2) in zip(top, top[1:]):
         ctx.count("order_pairs_checked")
@@ -578,8 +704,10 @@ def case_pr_push(ctx):
     R.write_gr(path, g)
     for t in threads:
         args = [path, "-t", t, "-algo", algo] + (["-tolerance=%g" % tol] if tol != 1e-3 or r.below(2) else [])
-        text = ctx.app("pr-push", args)
+        text = ctx.app("pr-push", args, threads=t)
         if text is None:
+            if ctx.hung:
+                break
             continue
         cmd = ctx.show_cmd(["pagerank-push-cpu"] + args)
         if "failed to converge" in text:
@@ -607,8 +735,10 @@ def case_pr_pull(ctx):
     R.write_gr(path, R.transpose(g))
     for t in threads:
         args = [path, "-transposedGraph", "-t", t, "-algo", algo, "-tolerance=%g" % tol]
-        text = ctx.app("pr-pull", args)
+        text = ctx.app("pr-pull", args, threads=t)
         if text is None:
+            if ctx.hung:
+                break
             continue
         cmd = ctx.show_cmd(["pagerank-pull-cpu"] + args)
         if "failed to converge" in text:
@@ -685,8 +815,8 @@ def case_mis(ctx):
     for t in threads:
         # (1) the application itself: own verification on, cardinality must be feasible
         args = [path, "-symmetricGraph", "-t", t, "-algo", algo]
-        text = ctx.app("mis", args)
-        if text is not None:
+        text = ctx.app("mis", args, threads=t)
+        if text is not None and not ctx.verify_failed:
             cmd = ctx.show_cmd(["maximal-independentset-cpu"] + args)
             card = grab_int(text, r"Cardinality of maximal independent set: (\d+)")
             ctx.count("fingerprints_compared")
@@ -696,11 +826,15 @@ def case_mis(ctx):
             elif not (lo <= card <= hi) or (feas is not None and card not in feas):
                 ctx.violation("infeasible-cardinality", {"printed": card, "smallest_possible": lo, "largest_possible": hi,
                                                          "feasible_sizes": sorted(feas) if feas else None, "cmd": cmd})
+        if ctx.hung:
+            break
         # (2) the same algorithm through the dump helper: the set itself must be independent and maximal
         dump = ctx.p("mis-%d.txt" % t)
         args2 = [path, "-symmetricGraph", "-t", t, "-algo", algo, "-noverify", "-c20dump", dump]
-        rc, text2 = ctx.run(ctx.exes["mis-dump"], args2)
+        rc, text2 = ctx.run(ctx.exes["mis-dump"], args2, threads=t)
         cmd2 = ctx.show_cmd(["c20_mis_dump"] + args2)
+        if rc == "hang":
+            break
         if rc != 0:
             ctx.app_failed(rc, text2, ["c20_mis_dump"] + args2)
             continue
@@ -784,9 +918,17 @@ def case_matching(ctx):
     R.write_gr(path, g)
     for t in threads:
         args = [path, "-symmetricGraph", "-inputType=fromFile", "-" + algo, "-" + ex, "-t", t]
-        text = ctx.app("matching", args)
+        text = ctx.app("matching", args, threads=t)
         if text is None:
+            if ctx.hung:
+                break
             continue
+        if ctx.verify_failed:
+            # the cardinality is printed after the verifier: ask again without it, the answer itself is still checked
+            args = args + ["-noverify"]
+            rc, text = ctx.run(ctx.exes["matching"], args, threads=t)
+            if rc != 0:
+                continue
         ctx.expect("wrong-cardinality", "Matching of cardinality", exp, grab_int(text, r"Matching of cardinality: (\d+)"),
                    ctx.show_cmd(["maximum-cardinality-matching-cpu"] + args), {"numA": nA, "numB": nB})
         if "Verification successful." in text:
@@ -835,6 +977,10 @@ def case_maxflow(ctx):
     exp = R.dinic(n, [(u, v, c) for u, v, c in g.edges()], s, t)
     threads = pick_threads(ctx)
     relabel = r.pick([0, 0, 1, 7, 50])
+    if variant.startswith("det"):
+        # the deterministic executor runs several barrier phases per round: keep it to few threads and large intervals
+        threads = sorted(set(min(t, 4) for t in threads))
+        relabel = r.pick([0, 0, 50])
     finish_sig(ctx, g, threads, "|cap=%s|relabel=%d|%s" % (wmode, relabel, "flow0" if exp == 0 else "flow+"))
     ctx.params.update({"source": s, "sink": t, "capacities": wmode, "relabel": relabel})
     for i, th in enumerate(threads):
@@ -848,8 +994,10 @@ def case_maxflow(ctx):
             args.append("-" + variant)
         if relabel:
             args.append("-relabel=%d" % relabel)
-        text = ctx.app("maxflow", args)
+        text = ctx.app("maxflow", args, threads=th)
         if text is None:
+            if ctx.hung:
+                break
             continue
         ctx.expect("wrong-flow-value", "Flow is", exp, grab_int(text, r"Flow is (-?\d+)"),
                    ctx.show_cmd(["preflowpush-cpu"] + args), {"source": s, "sink": t})
@@ -954,6 +1102,8 @@ def case_dist(ctx):
             args += ["-tolerance=%g" % tol, "-maxIterations=1000"]
         text = ctx.app(app, args, mpi=hosts)
         if text is None:
+            if ctx.hung:
+                break
             continue
         cmd = ctx.show_cmd(["mpirun", "-np", hosts, DIST_TARGETS[app]] + args)
         ctx.count("dist_runs")
@@ -991,7 +1141,8 @@ def case_dist(ctx):
                     ctx.violation("rank-outside-tolerance", {"node": v, "rank": got[v], "power_iteration": ref[v],
                                                              "allowed_deviation": b, "tolerance": tol, "cmd": cmd})
                     break
-            ctx.obs["pr_worst_err_over_bound_x1000"] = max(ctx.obs.get("pr_worst_err_over_bound_x1000", 0), int(worst * 1000))
+            if worst > 0.5:
+                ctx.count("pr_runs_using_more_than_half_of_the_allowed_deviation")
         # once per case: the shared-memory application on the same input must print the fingerprints of this result
         if not sm_done and got is not None:
             sm_done = True
@@ -1053,7 +1204,7 @@ VARIANTS = {
     "bfs": [("%s%s" % (a, "-serial" if e == "SERIAL" else ""), (a, e)) for a, e in BFS_VARIANTS],
     "sssp": [(a if a != "AutoAlgo" else "auto", a) for a in SSSP_ALGOS],
     "cc": [(a, a) for a in CC_ALGOS],
-    "mst": [("directed-input", "directed-input"), ("symmetric-input", "symmetric-input")],
+    "mst": [("directed-input", "directed-input"), ("symmetric-input", "symmetric-input")],   # input modes, one algorithm
     "triangles": [("%s%s" % (a, "-relabel" if rl else ""), (a, rl)) for a, rl in TRI_VARIANTS],
     "kcore": [("Async", "Async"), ("Sync", "Sync")],
     "pr-push": [("Async", "Async"), ("Sync", "Sync")],
@@ -1063,8 +1214,8 @@ VARIANTS = {
     "maxflow": [(v, v) for v in FLOW_VARIANTS],
 }
 # graphs per variant: (quick, thorough)
-PER_VARIANT = {"bfs": (5, 24), "sssp": (5, 22), "cc": (4, 20), "mst": (12, 60), "triangles": (5, 24), "kcore": (12, 60),
-               "pr-push": (10, 50), "pr-pull": (0, 50), "mis": (6, 30), "matching": (0, 24), "maxflow": (0, 36)}
+PER_VARIANT = {"bfs": (4, 24), "sssp": (3, 22), "cc": (3, 20), "mst": (8, 60), "triangles": (4, 24), "kcore": (8, 60),
+               "pr-push": (7, 50), "pr-pull": (0, 50), "mis": (4, 30), "matching": (0, 24), "maxflow": (0, 36)}
 DIST_CASES = {"dist-bfs": 40, "dist-sssp": 40, "dist-cc": 36, "dist-kcore": 36, "dist-pr": 30}
 
 
@@ -1079,7 +1230,7 @@ def build_plan(tier, seed):
         per = PER_VARIANT[app][0 if tier == "quick" else 1]
         for vname, vargs in VARIANTS[app]:
             for k in range(per):
-                plan.append({"app": app, "variant": vname, "comp": "%s:%s" % (app, vname), "args": vargs, "k": k,
+                plan.append({"app": app, "variant": vname, "comp": app if app == "mst" else "%s:%s" % (app, vname), "args": vargs, "k": k,
                              "kind": kinds[ki % len(kinds)], "fn": CASE_FN[app]})
                 ki += 1
     return plan
@@ -1112,6 +1263,9 @@ def _run_case(idx, desc, seed, tier, exes, root):
         import traceback
         ctx.inconclusive = "harness error in case %d (%s): %s" % (idx, desc["comp"], traceback.format_exc()[-1500:])
     finally:
+        if os.environ.get("C20_KEEP"):      # development aid: keep the inputs of the listed cases
+            if str(idx) in os.environ["C20_KEEP"].split(","):
+                shutil.copytree(ctx.dir, "/var/tmp/c20/keep-%d" % idx, dirs_exist_ok=True)
         shutil.rmtree(ctx.dir, ignore_errors=True)
     return ctx
 
@@ -1174,6 +1328,9 @@ def cpu_run(log, tier, seed):
         log.inconclusive("c20_mis_dump not built")
         return
     plan = build_plan(tier, seed)
+    only = os.environ.get("C20_APPS")   # development aid: comma separated application names
+    if only:
+        plan = [d for d in plan if d["app"] in only.split(",")]
     root = _scratch()
     try:
         with cf.ThreadPoolExecutor(max_workers=PAR) as ex:
@@ -1200,6 +1357,9 @@ def dist_run(log, tier, seed):
         if e:
             exes[a] = e
     plan = build_dist_plan(seed)
+    only = os.environ.get("C20_APPS")
+    if only:
+        plan = [d for d in plan if d["app"] in only.split(",")]
     root = _scratch()
     try:
         with cf.ThreadPoolExecutor(max_workers=PAR_DIST) as ex:
